@@ -100,6 +100,10 @@ class FluentWorklist(BaseWorklist):
         lengths = (len(source_wells), len(destination_wells), len(volumes))
         if len(set(lengths)) != 1:
             raise ValueError(f"Number of source/destination/volumes must be equal. They were {lengths}")
+        for labware, wells in ((source, source_wells), (destination, destination_wells)):
+            unknown = [w for w in wells if not w in labware.indices]
+            if unknown:
+                raise KeyError(f"Unknown well IDs for {labware.name}: {unknown}")
 
         # automatic partitioning
         partition_by = optimize_partition_by(source, destination, partition_by, label)
